@@ -3,6 +3,15 @@
 import json
 
 CHECKS = {
+    "C01": dict(level="other", tech="operator classification of effect decision trees; class trees of derive output (types) vs operator expressions; built-in tables recovered from pest_generator's quote! templates",
+                text="Structural clauses only: every TypedNode impl (640 functions) has the path invariants of exactly one PEG operator class "
+                     "(sequence, ordered choice, optional, greedy repetition, predicates, push, terminals) or is a reviewed stack node; match_range "
+                     "tests a closed interval; for one rule per pest operator form (optimizer on and off, counted repetitions) the type rustc "
+                     "assigned to the derive output maps to the class tree of the operator expression with children in grammar order; every "
+                     "ASCII built-in has exactly the intervals of pest_generator's own table and NEWLINE the same strings in a prefix-consistent "
+                     "order; every pest Unicode property has a node testing the predicate of the same name. Acceptance/offsets on inputs are not decided.",
+                note="pest_generator's table and PEG semantics of pest's operators (fixture expectations) are the oracle; pest's optimizer and Stack are trusted (known Stack defect listed in evidence).",
+                ref="§4 C01"),
     "C02": dict(level="other", tech="typed-HIR walk of every Pairs/Pair impl: ordered forward list vs child-bearing fields; look-ahead classified by effect tree",
                 text="Which nodes contribute tokens and in what order: every Pairs impl (320+, incl. Seq2..13, Choice2..13, 259 Unicode leaves, containers) "
                      "forwards each child-bearing field exactly once in declaration order (Skipped: skipped then matched), choices forward the "
@@ -78,6 +87,14 @@ CHECKS = {
                      "reachable from collect are discharged and the position is re-validated.",
                 note="'Not before the consumed prefix' and truthfulness on inputs are not decided.",
                 ref="§4 C10"),
+    "C11": dict(level="other", tech="data-flow / who-may-call in the generator's typed HIR; rustc type-checking fixture grammars; SCC analysis of the parse-path call graph",
+                text="Partial: the rule list handed to code emission is syntactically unwrap_or_report(consume_rules(pairs)) (optionally through optimize) "
+                     "and emission functions are callable only from derive_typed_parser; for fixture grammars covering every operator variant of both "
+                     "generators, recursive grammars under box_only_if_needed and option sets, the emitted code type-checks (reports the known "
+                     "finding: counted repetition with pest_optimizer = false emits undefined names); non-dispatched calls on the parse path form no "
+                     "cycle, so recursion while parsing goes through the grammar. Termination on inputs is not decided.",
+                note="pest_meta's validator is trusted; 'compiles' is sampled over fixture grammars with checked operator coverage.",
+                ref="§4 C11; §5.3"),
     "C12": dict(level="translation_validation", tech="sibling normal-form equality of typed HIR (repo copy vs pest source)",
                 text="Translation validation: Position::{new,line_col,line_of,find_line_start,find_line_end,at_start,at_end,...} "
                      "are shown to be the same programs as pest's (typed-HIR normal forms equal), hence equal results for every "
@@ -98,6 +115,28 @@ CHECKS = {
                      "selection and marker columns are runtime arithmetic: not decided.",
                 note="Discharge table is part of the specification; one open known finding (R14-SHOW:display_position) in known_findings.json.",
                 ref="§4 C14; §5.2, §5.5"),
+    "C16": dict(level="other", tech="type-tree walk of derive output + abstract evaluation of getter bodies as projections (fixtures); sibling equality of the two generators",
+                text="Partial, on fixture grammars with repeated mentions, nested options/choices/repetitions, mentions under & and !, optimizer on/off "
+                     "and reduced boxing: a getter exists exactly for the rules mentioned outside negative predicates; its return type is the "
+                     "Option/Vec/tuple nesting of the mentions found in the rule's content type (nested options flattened); every leaf of the getter "
+                     "body, evaluated as a projection, denotes the position of the i-th mention in grammar order; the two Generate impls build "
+                     "getters identically for shared operators.",
+                note="Sampled over fixture grammars; expectations are computed from the emitted content type, not from the generator's getter code.",
+                ref="§4 C16"),
+    "C17": dict(level="other", tech="item-table and accessor-body rules (preconditions of parametricity), child order in effect trees, leaf payload data-flow",
+                text="ChoiceN/SeqN/helper enums (arity 2..13): variant i is named _i and holds the i-th distinct type parameter, accessor _i reads "
+                     "variant _i, the helper chain runs the closure only for its first variant and passes the others on unchanged, sequence accessors "
+                     "return content.0..n-1 in order; alternatives/elements are tried in parameter order and alternative k is stored in variant _k; "
+                     "NEWLINE kind per literal, CharRange/ANY/Unicode content is the char read by the advancing primitive, Insens/PEEK/Skip spans are "
+                     "span(start, end), POP's span is the popped span, repetition iterators walk content in order.",
+                note="match_choices! and generated arities >= 12 are exercised through fixtures only.",
+                ref="§4 C17"),
+    "C18": dict(level="other", tech="impl-table rules: field coverage of hand-written eq/hash, derived impls elsewhere, state scan of the runtime crate",
+                text="Partial: every hand-written PartialEq::eq / Hash::hash (SeqN, Span, Position) touches exactly the type's fields, eq and hash "
+                     "the same ones; every other node type has derived Clone/PartialEq/Hash; pest_typed has no static, thread-local, hash-ordered "
+                     "collection, interior-mutability or environment access; entry methods build a fresh Stack and Tracker.",
+                note="'Equal exactly when same Debug rendering' on values is not decided.",
+                ref="§4 C18"),
     "C19": dict(level="other", tech="effect-decision-tree rules: loop range, lower-bound guard, success counting; alias type structure",
                 text="RepeatMin/RepeatMinMax/AtomicRepeat (TypedNode and NeverFailedTypedNode impls, both twins): loop over 0.. / 0..MAX, one unit "
                      "per iteration, success carries the unit's cursor, failure fails iff i < MIN else stops with the pre-iteration cursor, i counts "
@@ -105,8 +144,17 @@ CHECKS = {
                      "RepExact/RepMin/RepMinMax/Rep/RepOnce aliases route their bounds to the right const parameters; twins equal.",
                 note="Generic children obey their contracts; decides structure of generic code, not behaviour on inputs.",
                 ref="§4 C19"),
+    "C20": dict(level="other", tech="resolved-call scan for nondeterminism; sibling normal-form equality of the two Generate impls; rustc on fixture matrices; type-level facts per rule across option sets",
+                text="Partial: the generator iterates no hash-ordered collection and touches clock/thread/env only for path collection; the raw-AST and "
+                     "optimized-AST generators translate all 13 shared operators and the rule graph identically; derive output compiles for every "
+                     "operator variant (optimizer on/off), for recursive grammars with box_only_if_needed and under option combinations (9 quick / 64 "
+                     "thorough); across option sets with the same optimizer setting every rule keeps class tree, atomicity constants and emission, "
+                     "only boxing/accessors differ. Reports the known finding (undefined RepExact/RepMin/RepMax names). Optimizer on/off language "
+                     "equivalence is not decided.",
+                note="pest's optimizer trusted; option effects decided on fixture grammars at type level.",
+                ref="§4 C20; §5.3"),
 }
-NA = {}
+NA = {"C15": "traversal (pre-order / level-order / tree rendering) correctness quantifies over queue contents for all tree shapes: no necessary structural clause beyond the child-forwarding order already decided under C02; a rule on the shape of the two loops would be a frozen fragment (DESIGN §4 C15)"}
 ALL = ["C%02d" % i for i in range(1, 21)]
 
 
